@@ -152,6 +152,37 @@ def replay_acc(ctx, rec, layout, dtype, split, full):
                     ctx.violation(dict(site="mean_var_norm", kind="own_statistics"),
                                   "without stored statistics coefficient %d is %r" % (i, yc[:, i].tolist()), case_of("own", yc.tolist()))
                     return False
+        # ONE of the two statistics given, the other missing: the given one is used, the missing one is the input's own
+        # (the deviation about the input's own mean, whatever mean is subtracted: y = (x - m) / std_own(x)); the mean handed
+        # in is deliberately NOT the input's own (a corpus-level mean applied to one utterance)
+        off = torch.tensor([2.0 + i for i in range(C)], dtype=pooled.dtype)
+        own_mean = torch.tensor([rec["sum"][i] / n for i in range(C)], dtype=pooled.dtype)
+        given_mean = own_mean + off
+        given_std = torch.tensor([3.0 + i for i in range(C)], dtype=pooled.dtype)
+        for what, kw in (("mean_only", dict(mean=given_mean)), ("std_only", dict(std=given_std))):
+            for fn_name in ("module", "functional"):
+                try:
+                    if fn_name == "module":
+                        y = quiet(M.MeanVarianceNormalization(dim, **kw), pooled)
+                    else:
+                        y = quiet(F.mean_var_norm, pooled, dim, kw.get("mean"), kw.get("std"))
+                except Exception as ex:
+                    ctx.violation(dict(site="mean_var_norm", kind="exception", given=what), "raised %r" % ex, case_of(what, repr(ex)))
+                    return False
+                ctx.case(n=1)
+                yc = frames_by_coef(y)
+                for i in range(C):
+                    if what == "std_only":
+                        exp = [(data[t][i] - rec["sum"][i] / n) / float(given_std[i]) for t in range(n)]
+                    elif rec["varnum"][i] == 0:
+                        continue  # own deviation zero: the quotient is clamped by eps, not judged
+                    else:
+                        exp = [(data[t][i] - float(given_mean[i])) / std[i] for t in range(n)]
+                    if not all(close(float(yc[t, i]), exp[t], 1e-9) for t in range(n)):
+                        ctx.violation(dict(site="mean_var_norm", kind="one_statistic_given", given=what),
+                                      "%s given (%s): coefficient %d is %r, expected %r" % (
+                                          what, fn_name, i, yc[:, i].tolist(), exp), case_of(what, yc.tolist()))
+                        return False
     return True
 
 
